@@ -722,8 +722,8 @@ def main():
                 stats["ev:" + e["ev"]] = stats.get("ev:" + e["ev"], 0) + 1
         shutil.rmtree(w.top, True)
     with open(sys.argv[2], "w") as f:
-        json.dump(dict(traces=traces, idents=idents, stats=stats, tools=tools, registry=registry_view()), f,
-                  separators=(",", ":"))
+        f.write(json.dumps(dict(traces=traces, idents=idents, stats=stats, tools=tools, registry=registry_view()),
+                           separators=(",", ":")))
 
 
 if __name__ == "__main__":
